@@ -1293,3 +1293,343 @@ def pinv_law_negative_control(tag, cases):
             common.cleanup(wd)
     with ThreadPoolExecutor(max_workers=2) as ex:
         return sum(ex.map(one, (0, 2)))
+
+
+# ------------------------------------------------------------------ C16 extensions, part 2 (additions only)
+# lazy composite operators in the pinv catalog (operator trees of spec/Expr.tla), the reverse-order "law" as a TLC fact,
+# slowly decaying spectra U diag(r..1) V^H with exactly orthogonal Householder x permutation factors
+def mkron(A, B):
+    """Mat.tla!MKron."""
+    return mk(A["r"] * B["r"], A["c"] * B["c"], A["d"] * B["d"],
+              lambda i, j: cmul(A["e"][i // B["r"]][j // B["c"]], B["e"][i % B["r"]][j % B["c"]]))
+
+
+def mblock2(A, B):
+    """Mat.tla!MBlock2: [A 0; 0 B]."""
+    return mk(A["r"] + B["r"], A["c"] + B["c"], A["d"] * B["d"],
+              lambda i, j: cscale(B["d"], A["e"][i][j]) if i < A["r"] and j < A["c"]
+              else cscale(A["d"], B["e"][i - A["r"]][j - A["c"]]) if i >= A["r"] and j >= A["c"] else (0, 0))
+
+
+def _fold_right(fn, seq):
+    return seq[0] if len(seq) == 1 else fn(seq[0], _fold_right(fn, seq[1:]))
+
+
+def tree_dense(t):
+    """Mirror of Expr.tla!Denote on the node kinds used by the composite pinv catalog."""
+    k, a, p = t["k"], t["a"], t["p"]
+    if k == "Dense":
+        m = p["m"]
+        return {"r": m["r"], "c": m["c"], "d": m["d"], "e": [[tuple(x) for x in row] for row in m["e"]]}
+    ch = [tree_dense(x) for x in a]
+    if k in ("Product", "op_matmul"):
+        return _fold_right(mmul, ch)
+    if k in ("Sum", "op_add"):
+        return _fold_right(madd, ch)
+    if k == "Kronecker":
+        return _fold_right(mkron, ch)
+    if k == "BlockDiag":
+        assert all(x == 1 for x in p["mult"])
+        return _fold_right(mblock2, ch)
+    if k == "op_smul":
+        return mscale((tuple(p["c"]["n"]), p["c"]["d"]), ch[0])
+    if k == "op_neg":
+        return mneg(ch[0])
+    raise ValueError(k)
+
+
+def tD(rows):
+    """Dense leaf of an operator tree (JSON form shared by Expr.tla and harness/build.py)."""
+    m = M(rows)
+    return {"k": "Dense", "a": [], "p": {"m": jmat(m), "dt": "f64" if is_real_mat(m) else "c128"}}
+
+
+def tN(k, a, p=None):
+    return {"k": k, "a": list(a), "p": p if p is not None else {"none": True}}
+
+
+def tree_is_complex(t):
+    return (t["k"] == "Dense" and t["p"]["dt"] == "c128") or any(tree_is_complex(x) for x in t["a"]) or \
+        (t["k"] == "op_smul" and t["p"]["c"]["n"][1] != 0)
+
+
+def reverse_order_solve(Fs, b):
+    """LeastSquares.tla!ReverseOrderSolve: Fn^+ (.. (F1^+ b))."""
+    for F in Fs:
+        b = pinv_solve(F, b)
+    return b
+
+
+_LEAF = {
+    "t32": [[1, 0], [2, 1], [0, -1]], "t32b": [[1, 1], [1, -1], [2, 0]], "w23": [[1, 2, 0], [0, 1, -1]],
+    "w23b": [[2, -1, 1], [1, 1, 3]], "s22": [[1, 2], [3, 4]], "s22b": [[0, 1], [1, 1]], "s33": [[2, 1, 0], [0, 1, 1], [1, 0, 1]],
+    "t21": [[1], [2]], "w12": [[1, -1]], "t43": [[1, 0, 0], [0, 1, 0], [0, 0, 2], [1, 1, 1]],
+    "w34": [[1, 0, 0, 1], [0, 2, 0, -1], [0, 0, 1, 1]], "t32c": [[1, 0], [I, 1], [0, -I]], "w23c": [[1, I, 0], [0, 1, -I]],
+    "t43c": [[1, 0, 0], [0, 1, 0], [0, 0, 2], [1, I, 1]], "w34c": [[1, 0, 0, I], [0, 2, 0, -1], [0, 0, 1, 1]],
+}
+# the five patterns in which (B C)^+ != C^+ B^+ (witnesses) and the three in which the reverse order happens to hold
+PRODUCT_PATTERNS = {
+    "tall@tall": ("t43", "t32"), "wide@wide": ("w23", "w34"), "wide@tall": ("w23", "t32b"), "square@tall": ("s33", "t32"),
+    "wide@square": ("w23", "s33"),
+    "tall@square": ("t32", "s22"), "square@wide": ("s22", "w23"), "square@square": ("s22", "s22b"),
+}
+WITNESS_PATTERNS = ("tall@tall", "wide@wide", "wide@tall", "square@tall", "wide@square")
+
+
+def composite_trees(tier):
+    """name -> (operator tree, pattern or None)."""
+    L = {k: tD(v) for k, v in _LEAF.items()}
+    one = {"mult": [1, 1]}
+    two = {"c": {"n": [2, 0], "d": 1}, "ck": "pyfloat"}
+    m3 = {"c": {"n": [-3, 0], "d": 1}, "ck": "pyint"}
+    trees = {}
+    for pat, (b, c) in PRODUCT_PATTERNS.items():
+        trees[f"Product({b},{c})"] = (tN("Product", [L[b], L[c]]), pat)
+    trees["t43@t32"] = (tN("op_matmul", [L["t43"], L["t32"]]), "tall@tall")
+    trees["w23@s33"] = (tN("op_matmul", [L["w23"], L["s33"]]), "wide@square")
+    trees["Product(t43c,t32c)"] = (tN("Product", [L["t43c"], L["t32c"]]), "tall@tall")
+    trees["Product(w23c,w34c)"] = (tN("Product", [L["w23c"], L["w34c"]]), "wide@wide")
+    trees["Product(t43,s33,t32)"] = (tN("Product", [L["t43"], L["s33"], L["t32"]]), "tall@square@tall")
+    trees["BlockDiag(t32,t21)"] = (tN("BlockDiag", [L["t32"], L["t21"]], one), None)
+    trees["BlockDiag(w23,w12)"] = (tN("BlockDiag", [L["w23"], L["w12"]], one), None)
+    trees["BlockDiag(t32,s22)"] = (tN("BlockDiag", [L["t32"], L["s22"]], one), None)
+    trees["BlockDiag(t32c,t21)"] = (tN("BlockDiag", [L["t32c"], L["t21"]], one), None)
+    trees["Kronecker(t21,t32)"] = (tN("Kronecker", [L["t21"], L["t32"]]), None)
+    trees["Kronecker(w12,w23)"] = (tN("Kronecker", [L["w12"], L["w23"]]), None)
+    trees["Kronecker(t21,s22)"] = (tN("Kronecker", [L["t21"], L["s22"]]), None)
+    trees["Kronecker(w12,w23c)"] = (tN("Kronecker", [L["w12"], L["w23c"]]), None)
+    trees["2*t32"] = (tN("op_smul", [L["t32"]], two), None)
+    trees["-w23"] = (tN("op_neg", [L["w23"]]), None)
+    trees["-3*w23b"] = (tN("op_smul", [L["w23b"]], m3), None)
+    trees["t32+t32b"] = (tN("op_add", [L["t32"], L["t32b"]]), None)
+    trees["Sum(w23,w23b)"] = (tN("Sum", [L["w23"], L["w23b"]]), None)
+    trees["2*Product(t43,t32)"] = (tN("op_smul", [tN("Product", [L["t43"], L["t32"]])], two), None)
+    trees["BlockDiag(Product(t43,t32),t21)"] = (tN("BlockDiag", [tN("Product", [L["t43"], L["t32"]]), L["t21"]], one), None)
+    if tier == "thorough":
+        rng = np.random.RandomState(20240917)       # fixed: the TLC catalog does not depend on VERIF_SEED
+        shapes = {"tall@tall": ((4, 3), (3, 2)), "wide@wide": ((2, 3), (3, 4)), "wide@tall": ((2, 3), (3, 2)),
+                  "square@tall": ((3, 3), (3, 2)), "wide@square": ((2, 3), (3, 3)), "tall@square": ((3, 2), (2, 2)),
+                  "square@wide": ((2, 2), (2, 3))}
+        cnt = 0
+        while cnt < 70:
+            pat = list(shapes)[cnt % len(shapes)]
+            (m, p), (_, n) = shapes[pat]
+            cplx = rng.rand() < 0.3
+            B = rng.randint(-2, 3, size=(m, p)).astype(complex)
+            C = rng.randint(-2, 3, size=(p, n)).astype(complex)
+            if cplx:
+                B = B + 1j * rng.randint(-1, 2, size=(m, p)) * (rng.rand(m, p) < 0.4)
+            if min(np.linalg.matrix_rank(B), np.linalg.matrix_rank(C)) < min(m, p, n) or np.linalg.matrix_rank(B) < min(m, p) \
+                    or np.linalg.matrix_rank(C) < min(p, n) or np.linalg.matrix_rank(B @ C) < min(m, n):
+                continue
+            lb = [[complex(x) if x.imag else int(x.real) for x in row] for row in B]
+            lc = [[int(x.real) for x in row] for row in C]
+            trees[f"rndProduct{cnt}[{pat}]"] = (tN("Product" if cnt % 2 else "op_matmul", [tD(lb), tD(lc)]), pat)
+            cnt += 1
+    return trees
+
+
+def pinv_composite_cases(tier):
+    """Catalog cases (kind "Tree") for lazy composite operators: A = Expr!Denote(tree) (mirror), exact x = pinv(A) b of the
+    composite's own matrix; products carry `revlaw`: does the reverse-order candidate Fn^+ .. F1^+ b equal x?"""
+    cases, dropped = [], 0
+    for name, (tree, pat) in composite_trees(tier).items():
+        cplx = tree_is_complex(tree)
+        A0, _ = peak_of(tree_dense, tree)
+        if A0 is None:
+            dropped += 1
+            continue
+        m = A0["r"]
+        rhs = [list(range(1, m + 1)), [1, -1, 2, -2, 3, -3][:m]]
+        if cplx:
+            rhs.append([1 + I, 2, -I, 1, I, -1][:m])
+        for bi, bv in enumerate(rhs):
+            b = col(bv)
+
+            def build():
+                A = tree_dense(tree)
+                assert full_rank(A)
+                x = pinv_solve(A, b)
+                assert is_min_norm_lsq(A, b, x)
+                rev = None
+                if tree["k"] in ("Product", "op_matmul"):
+                    Fs = [tree_dense(t) for t in tree["a"]]
+                    assert all(full_rank(F) for F in Fs) and meq(_fold_right(mmul, Fs), A)
+                    rev = meq(reverse_order_solve(Fs, b), x)
+                return A, x, rev
+            res, peak = peak_of(build)
+            if res is None:
+                dropped += 1
+                continue
+            A, x, rev = res
+            c = {"id": f"{name}/b{bi}", "kind": "Tree", "A": A, "b": b, "x": x, "params": {"kind": "Tree", "tree": tree},
+                 "tree": tree, "pattern": pat, "complex": cplx or not is_real_mat(b), "m": A["r"], "n": A["c"], "peak": peak,
+                 "scales": []}
+            if rev is not None:
+                c["revlaw"] = rev
+            for sname in ("-3", "1/10"):
+                r2, _ = peak_of(pinv_law_mirror, A, b, x, LAW_SCALES[sname])
+                if r2 is not None:
+                    c["scales"].append(sname)
+            cases.append(c)
+    return cases, dropped
+
+
+def pinv_cases_y(tier):
+    base, d1 = pinv_cases_x(tier)
+    comp, d2 = pinv_composite_cases(tier)
+    return base + comp, d1 + d2
+
+
+def render_pinv_catalog_y(cases, lawpow=None):
+    recs = []
+    for c in cases:
+        p = c["params"]
+        rec = {"id": c["id"], "kind": c["kind"], "A": jmat(c["A"]), "b": jmat(c["b"]),
+               "sc": list(p.get("c", [0, 0])), "diag": [list(x) for x in p.get("diag", [[0, 0]])],
+               "perm": list(p.get("perm", [1])),
+               "scales": [{"n": list(LAW_SCALES[s][0]), "d": LAW_SCALES[s][1]} for s in c.get("scales", [])]}
+        if "tree" in c:
+            rec["tree"] = c["tree"]
+        if "revlaw" in c:
+            rec["revlaw"] = bool(c["revlaw"])
+        if lawpow is not None:
+            rec["lawpow"] = lawpow
+        recs.append(rec)
+    return "---- MODULE PinvCatalog ----\nEXTENDS Integers, Sequences\nPCases == " + tla.to_tla(recs) + "\n====\n"
+
+
+PINV_INVARIANTS_Y = PINV_INVARIANTS_X[:-1] + ("CompositeOK", "ReverseOrderFact", "Emit", "EmitComposite")
+
+
+def run_pinv_model_y(tag, cases):
+    wd = tla.make_build_dir(tag)
+    try:
+        res = tla.run_tlc("MC_Pinv", _cfg(PINV_INVARIANTS_Y), wd, gen_files={"PinvCatalog.tla": render_pinv_catalog_y(cases)})
+        _check_tlc(res, "MC_Pinv")
+        lines = res.json_lines()
+        out = {r["id"]: r for r in lines if "id" in r}
+        rev = {r["cid"]: bool(r["rev"]) for r in lines if "cid" in r}
+        if len(out) != len(cases) or res.distinct != 2 * len(cases):
+            raise tla.TLCError(f"MC_Pinv: expected {2 * len(cases)} states, TLC found {res.distinct}, parsed {len(out)} JSON lines")
+        by_scale = {}
+        for c in cases:
+            if not same_mat(out[c["id"]]["x"], c["x"]) or out[c["id"]]["law"] != len(c.get("scales", [])) \
+                    or not same_mat(out[c["id"]]["A"], c["A"]):
+                raise tla.TLCError(f"MC_Pinv: TLC and the integer mirror disagree on {c['id']}")
+            if ("revlaw" in c) != (c["id"] in rev) or ("revlaw" in c and rev[c["id"]] != bool(c["revlaw"])):
+                raise tla.TLCError(f"MC_Pinv: TLC and the integer mirror disagree on the reverse-order fact of {c['id']}")
+            for s in c.get("scales", []):
+                by_scale[s] = by_scale.get(s, 0) + 1
+        # the witnesses: in each of the five patterns the reverse-order candidate differs from pinv(B C) b (TLC's verdict)
+        fails = {}
+        for c in cases:
+            if "revlaw" in c and not rev[c["id"]]:
+                fails.setdefault(c["pattern"], []).append(c["id"])
+        missing = [p for p in WITNESS_PATTERNS if not fails.get(p)]
+        if any(c.get("kind") == "Tree" for c in cases) and missing:
+            raise tla.TLCError(f"MC_Pinv: no witness that the reverse-order law fails for {missing}")
+        holds = sorted({c["pattern"] for c in cases if "revlaw" in c and rev[c["id"]]})
+        return out, {"states": res.distinct, "transitions": res.states, "wall_s": round(res.wall, 1), "cases": len(cases),
+                     "invariants": list(PINV_INVARIANTS_Y), "scaling_law_instances": sum(by_scale.values()),
+                     "scaling_law_instances_by_scale": by_scale, "composite_cases": sum(1 for c in cases if c["kind"] == "Tree"),
+                     "reverse_order_law_fails": {p: len(v) for p, v in sorted(fails.items())},
+                     "reverse_order_law_fails_witness": {p: v[0] for p, v in sorted(fails.items())},
+                     "reverse_order_law_holds_on_patterns": holds}
+    finally:
+        common.cleanup(wd)
+
+
+def pinv_composite_negative_control(tag, cases):
+    """(1) the claim that the reverse-order law HOLDS on a tall@tall witness must be rejected by ReverseOrderFact,
+    (2) a tree that does not denote the catalog's matrix must be rejected by CompositeOK."""
+    from concurrent.futures import ThreadPoolExecutor
+    w = next(c for c in cases if c.get("pattern") == "tall@tall" and c.get("revlaw") is False)
+    bad1 = dict(w)
+    bad1["revlaw"] = True
+    bad2 = dict(w)
+    bad2["tree"] = tN(w["tree"]["k"], list(reversed([tN("op_neg", [t]) if i == 0 else t for i, t in enumerate(w["tree"]["a"])]))[::-1])
+    bad2["revlaw"] = False
+
+    def one(arg):
+        bad, inv = arg
+        wd = tla.make_build_dir(tag + "-negcomp")
+        try:
+            res = tla.run_tlc("MC_Pinv", _cfg((inv, )), wd, workers=2, gen_files={"PinvCatalog.tla": render_pinv_catalog_y([bad])})
+            return 1 if res.violated == inv else 0
+        finally:
+            common.cleanup(wd)
+    with ThreadPoolExecutor(max_workers=2) as ex:
+        return sum(ex.map(one, ((bad1, "ReverseOrderFact"), (bad2, "CompositeOK"))))
+
+
+# ---- slowly decaying spectra: A = U diag(r, r-1, .., 1) V^H, U = H(v) P exactly orthogonal
+def hp_orthogonal(n, variant):
+    """(N, d): integer matrix N and positive integer d with N / d = H(v) P exactly orthogonal, H(v) = I - 2 v v^T / v^T v
+    the Householder reflector of a small-integer vector v, P the permutation matrix with columns e_p(j), p(j) = (a j + 1) mod n."""
+    v = [2 if (i + variant) % 4 == 0 else (-1 if (i + variant) % 3 == 0 else 1) for i in range(n)]
+    vv = sum(x * x for x in v)
+    a = next(a for a in (7, 11, 13, 5, 3, 1) if math.gcd(a, n) == 1) if n > 1 else 1
+    p = [(a * j + 1) % n for j in range(n)]
+    N = [[(vv if i == p[j] else 0) - 2 * v[i] * v[p[j]] for j in range(n)] for i in range(n)]
+    g = vv
+    for row in N:
+        for x in row:
+            g = math.gcd(g, x)
+    return [[x // g for x in row] for row in N], vv // g
+
+
+def slow_factors(m, n, cplx):
+    """Exact factors of the slowly-decaying family: ((Nu, du), (Nv, dv), sig); complex: rows multiplied by unit phases."""
+    Nu, du = hp_orthogonal(m, 1)
+    Nv, dv = hp_orthogonal(n, 2)
+    if cplx:
+        Nu = [[x * (1j ** i) for x in row] for i, row in enumerate(Nu)]
+        Nv = [[x * ((-1j) ** i) for x in row] for i, row in enumerate(Nv)]
+    return (Nu, du), (Nv, dv), list(range(min(m, n), 0, -1))
+
+
+def _gi(x):
+    return complex(round(x.real), round(x.imag)) if isinstance(x, complex) else x
+
+
+def svd_slow_cases(tier):
+    """Reduced instances of the family for TLC (same generator as the large numeric instances of harness/props/c16.py)."""
+    shapes = [(6, 4, False), (4, 6, False), (5, 5, False), (6, 4, True), (5, 5, True)]
+    if tier == "thorough":
+        shapes += [(4, 6, True), (7, 4, False), (4, 7, False), (6, 6, False), (3, 5, True)]
+    cases, dropped = [], 0
+    for m, n, cplx in shapes:
+        (Nu, du), (Nv, dv), sig = slow_factors(m, n, cplx)
+        Um = M([[_gi(x) for x in row] for row in Nu], du)
+        Vm = M([[_gi(x) for x in row] for row in Nv], dv)
+
+        def build():
+            S = mk(m, n, 1, lambda i, j: (sig[i], 0) if i == j and i < len(sig) else (0, 0))
+            A = mnormalize(mmul(mmul(Um, S), madj(Vm)))
+            for X in (Um, Vm):
+                assert meq(mmul(madj(X), X), M([[1 if i == j else 0 for j in range(X["r"])] for i in range(X["r"])]))
+                mmul(X, madj(X))
+            best = {}
+            for k in range(1, len(sig) + 1):
+                Sk = mk(k, k, 1, lambda i, j: (sig[i], 0) if i == j else (0, 0))
+                best[k] = mnormalize(mmul(mmul(cols_of(Um, k), Sk), madj(cols_of(Vm, k))))
+            return A, best
+        res, peak = peak_of(build)
+        if res is None:
+            dropped += 1
+            continue
+        A, best = res
+        c = {"id": f"HP:{m}x{n}{'c' if cplx else ''}*diag{sig}", "U": Um, "V": Vm, "sig": sig, "A": A, "best": best, "m": m,
+             "n": n, "complex": cplx, "peak": peak, "slow": True}
+        if not svd_add_tails(c):
+            dropped += 1
+            continue
+        cases.append(c)
+    return cases, dropped
+
+
+def svd_cases_y(tier):
+    base, d1 = svd_cases_x(tier)
+    slow, d2 = svd_slow_cases(tier)
+    return base + slow, d1 + d2
